@@ -5,10 +5,9 @@ EXTENDS HedText, Json, IOUtils
 \* --- case generation, sharded by a two-character prefix handed over in the environment
 PfxStr == IOEnv.GEN_PREFIX
 Pfx == [j \in 1..Len(PfxStr) |-> SubSeq(PfxStr, j, j)]
-GenTexts == IF IOEnv.GEN_SHORT = "1"
-            THEN UNION {[1..n -> Alpha] : n \in 0..(Len(PfxStr) - 1)}
-            ELSE {Pfx \o r : r \in UNION {[1..n -> Alpha] : n \in 0..(N - Len(PfxStr))}}
-GenInit == /\ src \in GenTexts
+GenInit == /\ IF IOEnv.GEN_SHORT = "1"
+              THEN \E n \in 0..(Len(PfxStr) - 1) : src \in [1..n -> Alpha]
+              ELSE \E n \in 0..(N - Len(PfxStr)) : \E r \in [1..n -> Alpha] : src = Pfx \o r
            /\ phase = "gen" /\ i = 0 /\ spacing = 0 /\ found = TRUE /\ tagStart = None /\ lastEnd = 0
            /\ out = <<>> /\ tk = 0 /\ stack = <<>> /\ tree = <<>> /\ rejected = FALSE
 GenNext == UNCHANGED vars
